@@ -1574,6 +1574,40 @@ async def c18_new_subsystem_function_error(w):
             "expected": "exactly one error record on the script's logger custom_components.pyscript.file.c18[.f] (with traceback), none elsewhere"}
 
 
+async def c18_expression_error(w):
+    """An @event_trigger filter expression that raises the exception class named by the witness (new subsystem): reported once
+    on the script's logger, nothing escapes into Home Assistant's listener, and the function does not run."""
+    hass = await boot_full(legacy=False)
+    LOGS.clear()
+    cls = w.get("exception", "TimeoutError")
+    if cls == "UserException":
+        cls = "ValueError"
+    ran = []
+    src = ('def helper():\n    raise ' + cls + '("helper gave up")\n\n'
+           '@event_trigger("boom_event", "helper()")\ndef f(**kw):\n    ran_append(1)\n')
+    from custom_components.pyscript.global_ctx import GlobalContext, GlobalContextMgr
+    gctx = GlobalContext("file.c18e", global_sym_table={"__name__": "file.c18e", "ran_append": ran.append}, manager=GlobalContextMgr)
+    GlobalContextMgr.set("file.c18e", gctx)
+    gctx.set_auto_start(True)
+    _, actx, exc = await run_source("file.c18e", src, global_ctx=gctx)
+    await settle(10)
+    cbs = hass.bus.listeners.get("boom_event", [])
+    from types import SimpleNamespace as NS
+    escaped = []
+    for cb in list(cbs):
+        try:
+            await cb(NS(event_type="boom_event", context=None, data={}))
+        except BaseException as e:  # noqa
+            escaped.append(repr(e))
+    await settle(30)
+    recs = [(r.name, r.getMessage()[:160]) for r in LOGS if r.levelno >= 40]
+    on_script = [r for r in recs if ".file.c18e" in r[0]]
+    await shutdown()
+    rep = bool(escaped) or len(on_script) != 1 or bool(ran) or len(cbs) != 1
+    return {"reproduced": rep, "observed": {"listeners": len(cbs), "escaped_into_home_assistant": escaped, "error_records": recs[:4], "function_ran": len(ran)},
+            "expected": "one error record on the script's logger, nothing raised into the bus listener, function not run"}
+
+
 def _gen_fault_programs():
     faults = {"zerodiv": "1 / 0", "name": "undefined_name_xyz", "raise": "raise ValueError('v')", "index": "[][1]"}
     wraps = {
